@@ -162,7 +162,7 @@ TDirectRun == TDirectEnd \/ TDirectPartial
 
 \* main-thread private steps that are not logged
 Silent == /\ (RunOther \/ RunTailEarlyError \/ TDirectRun \/ AfterRW \/ TiGet \/ TiGetFailPrealloc \/ TiCreateFail \/ TiSetupFailIn
-              \/ TiSetupFailDecoder \/ DirectInitFail \/ NextStreamFail \/ BlkHdrFail \/ (EndSignal /\ m.loopI >= m.nInit))
+              \/ TiSetupFailDecoder \/ DirectInitFail \/ NextStreamFail \/ BlkHdrFail \/ TiSetupReject \/ DirectInitReject \/ (EndSignal /\ m.loopI >= m.nInit))
           /\ UNCHANGED l
 
 TNext == Logged \/ Silent
